@@ -1199,7 +1199,8 @@ class MyPyAstVisitor:
                 name = qname.split(".")[-1]
             else:
                 # In this case some types where defined in multiple modules with the same names.
-                for alias_qname in qnames:
+                # (sorted, so that the result does not depend on the iteration order of the set)
+                for alias_qname in sorted(qnames):
                     # We check if the type was defined in the same module
                     type_path = ".".join(alias_qname.split(".")[0:-1])
                     name = alias_qname.split(".")[-1]
@@ -1207,7 +1208,8 @@ class MyPyAstVisitor:
                     if self.mypy_file is None:  # pragma: no cover
                         raise TypeError("Expected mypy_file (module information), got None.")
 
-                    if self.mypy_file.fullname in type_path:
+                    # "pkg.core" is not the module of a type of "pkg.core_widgets"
+                    if f"{type_path}.".startswith(f"{self.mypy_file.fullname}."):
                         qname = alias_qname
                         break
 
